@@ -48,6 +48,9 @@ let parse_leaf (tok : string) : leafv =
   | 's' | 'w' | 'x' | 'y' -> { z with sk = String.concat "" (List.map (fun b -> String.make 1 (Char.chr (int_of_byte b))) (str_of_hex body)) }
   | _ -> raise Bad
 
+(* the ownership form letter between U and ( *)
+let own_of_letter = function
+  | 'c' -> OwnCopy | 'n' -> OwnNew | 'a' -> OwnAlias | 'o' -> OwnOwningAlias | 'u' -> OwnFromUnique | 'k' -> OwnMoved | _ -> raise Bad
 (* recursive descent over  leaf | T(..) | P(a,b) | V<k>(v) | U(v) | O(..)  ; values in a list are separated by ';' *)
 let parse_values (s : string) : leafv value list =
   let n = String.length s in
@@ -60,7 +63,10 @@ let parse_values (s : string) : leafv value list =
     | 'O' when !i + 1 < n && s.[!i + 1] = '(' -> incr i; eat '('; let l = elems () in VObj l
     | 'P' when !i + 1 < n && s.[!i + 1] = '(' ->
         incr i; eat '('; let a = value () in eat ','; let b = value () in eat ')'; VPair (a, b)
-    | 'U' when !i + 1 < n && s.[!i + 1] = '(' -> incr i; eat '('; let v = value () in eat ')'; VPtr v
+    | 'U' when !i + 1 < n && s.[!i + 1] = '(' -> incr i; eat '('; let v = value () in eat ')'; VPtr (OwnMake, v)
+    | 'U' when !i + 2 < n && s.[!i + 2] = '(' ->
+        let o = own_of_letter s.[!i + 1] in
+        i := !i + 2; eat '('; let v = value () in eat ')'; VPtr (o, v)
     | 'Z' -> incr i; VValueless
     | 'V' ->
         incr i;
@@ -89,7 +95,7 @@ let rec leaves (x : leafv value) : leafv list =
   | VLeaf a -> [a]
   | VTuple l | VObj l -> List.concat_map leaves l
   | VPair (a, b) -> leaves a @ leaves b
-  | VVariant (_, v) | VPtr v -> leaves v
+  | VVariant (_, v) | VPtr (_, v) -> leaves v
   | VValueless -> []
 let rec has_ptr (x : leafv value) : bool =
   match x with
@@ -135,7 +141,7 @@ let rec leaf_diffs (x : leafv value) (y : leafv value) : int option =   (* None:
   | VTuple l, VTuple m | VObj l, VObj m -> both l m
   | VPair (a, b), VPair (c, d) -> both [a; b] [c; d]
   | VVariant (k, v), VVariant (j, w) -> if k = j then leaf_diffs v w else None
-  | VPtr v, VPtr w -> leaf_diffs v w
+  | VPtr (_, v), VPtr (_, w) -> leaf_diffs v w
   | VValueless, VValueless -> Some 0
   | _ -> None
 let is_swap (x : leafv value) (y : leafv value) : bool =
@@ -160,6 +166,38 @@ let is_swap (x : leafv value) (y : leafv value) : bool =
 let neighbours x y = leaf_diffs x y = Some 1 || is_swap x y
 
 let kv_of (l : leafv value list) = List.mapi (fun i v -> (v, nat_of_int i)) l
+
+(* ------------------------------------------------------------------ C16: equal pointers in different ownership forms *)
+(* the twin the C++ driver builds: every outermost pointer re-made in the form FORMS[k mod length]; the pointee is the same object *)
+let twin (forms : string) (x : leafv value) : leafv value =
+  let k = ref 0 in
+  let next () = if forms = "" then OwnCopy else begin
+      let c = forms.[!k mod String.length forms] in incr k;
+      (match c with 'c' -> OwnCopy | 'a' -> OwnAlias | 'o' -> OwnOwningAlias | 'k' -> OwnMoved | _ -> raise Bad) end in
+  let rec go x = match x with
+    | VLeaf _ | VValueless -> x
+    | VTuple l -> VTuple (List.map go l)
+    | VObj l -> VObj (List.map go l)
+    | VPair (a, b) -> let a' = go a in let b' = go b in VPair (a', b')
+    | VVariant (j, v) -> VVariant (j, go v)
+    | VPtr (_, v) -> VPtr (next (), v) in
+  go x
+let alias_model sx forms =
+  let x = parse_value sx in
+  if not (has_ptr x) then raise Bad;
+  let y = twin forms x in
+  let t1 = tbuild the_params leaf_h leaf_eqb (kv_of [x]) and t2 = tbuild the_params leaf_h leaf_eqb (kv_of [x; y]) in
+  let f = b01 (tfind the_params leaf_h leaf_eqb t1 y <> None) in
+  Printf.sprintf "AL %s %s %s S %s %d M %s %d LH %s" (b01 (meq x y)) (hex_of_n (mhash x)) (hex_of_n (mhash y)) f (List.length t2) f (List.length t2) (lh_of [x])
+(* the SPEC: the twin's pointers ARE x's pointers (same address), so x == y; equal values hash equal, a container holding x
+   finds y and does not take y as a second element *)
+let alias_oracle sx forms obs =
+  match words obs with
+  | ["AL"; e; hx; hy; "S"; f1; n1; "M"; f2; n2; "LH"; _] ->
+      let x = parse_value sx in
+      ignore (twin forms x);
+      has_ptr x && e = "1" && hx = hy && f1 = "1" && n1 = "1" && f2 = "1" && n2 = "1"
+  | _ -> false
 
 (* ------------------------------------------------------------------ C16: objects with a history *)
 (* the history the C++ driver performs for CODE, as operations of the model's history machine on the members of a;
@@ -210,7 +248,7 @@ let maxn = 6
 (* which (adaptor, kind, mode, length) combinations exist in the C++ driver *)
 let iter_valid en kind mode n =
   match kind with
-  | "vec" | "list" | "map" | "fv" -> List.mem mode ["l"; "c"; "r"; "m"; "k"; "s"; "q"]
+  | "vec" | "list" | "map" | "fv" | "ui" -> List.mem mode ["l"; "c"; "r"; "m"; "k"; "s"; "q"]
   | "deq" -> List.mem mode ["l"; "c"; "r"; "m"; "k"; "s"; "q"]
   | "set" | "str" -> List.mem mode ["c"; "r"; "m"; "k"; "s"; "q"]
   | "arr" -> n <= maxn && List.mem mode ["l"; "c"; "r"; "m"; "k"; "s"; "q"]
@@ -254,8 +292,9 @@ let iter_oracle en kind mode elems obs =
 (* ---- the same adaptor / container used more than once ---- *)
 let gm (v : int) : int = 2 * v + 1
 let reuse_valid sc kind mode =
-  List.mem kind ["vec"; "list"; "map"; "fv"] &&
+  List.mem kind ["vec"; "list"; "map"; "fv"; "ui"] &&
   (match sc with
+   | "en3" | "rv3" -> mode = "l" || mode = "c" || mode = "r"
    | "en2" | "rv2" | "enbe" | "rvbe" -> mode = "l" || mode = "r"
    | "enen" | "enrv" | "enmod" | "rvmod" -> mode = "l"
    | "nest" | "cad" -> mode = "l" || mode = "r"
@@ -266,6 +305,14 @@ let nn_str fin l =
 let reuse_model sc kind mode elems =
   if not (reuse_valid sc kind mode) then "BADCASE" else
   match sc with
+  | "en3" ->   (* five passes over the one adaptor: range-for, range-for (writing in mode l), range-for, two manual loops *)
+      let keep = (fun _ v -> v) in
+      out_str (fun (vs, c) -> Printf.sprintf "V5 %s C %s" (String.concat " " (List.map vis_e vs)) (if mode = "l" then wire_of_ints c else "-"))
+        (enumerate_passes [keep; (if mode = "l" then fe else keep); keep; keep; keep] elems)
+  | "rv3" ->
+      let keep = (fun v -> v) in
+      out_str (fun (vs, c) -> Printf.sprintf "V5 %s C %s" (String.concat " " (List.map wire_of_ints vs)) (if mode = "l" then wire_of_ints c else "-"))
+        (reverse_passes [keep; (if mode = "l" then fr else keep); keep; keep; keep] elems)
   | "en2" -> out_str (fun (a, b) -> Printf.sprintf "V2 %s %s" (vis_e a) (vis_e b)) (enumerate_twice elems)
   | "rv2" -> out_str (fun (a, b) -> Printf.sprintf "V2 %s %s" (wire_of_ints a) (wire_of_ints b)) (reverse_twice elems)
   | "enen" -> out_str (fun l -> "NN " ^ nn_str (inner_str vis_e) l) (enumerate_nested elems)
@@ -290,6 +337,12 @@ let reuse_oracle sc kind mode elems obs =
   let en c = vis_e (spec_enumerate c) and rv c = wire_of_ints (List.rev c) in
   let ne = b01 (n > 0) in
   let want = match sc with
+    | "en3" | "rv3" ->
+        (* passes 1 and 2 see the range as it was, passes 3..5 what the writing pass 2 left (mode l); each pass sees all of it *)
+        let e = sc = "en3" in
+        let c2 = if mode <> "l" then elems else if e then spec_enumerate_write fe elems else List.map fr elems in
+        let v c = if e then en c else rv c in
+        Printf.sprintf "V5 %s %s %s %s %s C %s" (v elems) (v elems) (v c2) (v c2) (v c2) (if mode = "l" then wire_of_ints c2 else "-")
     | "en2" -> Printf.sprintf "V2 %s %s" (en elems) (en elems)
     | "rv2" -> Printf.sprintf "V2 %s %s" (rv elems) (rv elems)
     | "enen" | "enrv" ->
@@ -413,7 +466,7 @@ let mi_line en elems =
   let base = Printf.sprintf "MI %s %s %s %s %s %s" full full full suffix suffix full in
   if en then base ^ " K " ^ full
   else Printf.sprintf "%s X %s %d %s %s" base full n full (if n = 0 then "." else List.nth items (n / 2))
-let mi_valid kind mode = List.mem kind ["vec"; "list"; "map"; "fv"] && (mode = "l" || mode = "r")
+let mi_valid kind mode = List.mem kind ["vec"; "list"; "map"; "fv"; "ui"] && (mode = "l" || mode = "r")
 (* the SPEC side: the same line computed from spec_enumerate / rev *)
 let mi_spec en elems =
   let n = List.length elems in
@@ -480,9 +533,10 @@ let model (w : string list) : string =
           Printf.sprintf "M %d %s" (List.length t)
             (if probes = [] then "." else String.concat "," (List.map (fun y -> match look y with None -> "-" | Some i -> string_of_int (int_of_nat i)) probes))
     | ["h"; ("P" | "Q"); code; sa; sb; sf] -> history_model code sa sb sf
+    | ["al"; _; sx; forms] -> alias_model sx forms
     | ["a"; "SQ"; sx] ->
         let x = parse_value sx in
-        (match x with VPtr _ -> Printf.sprintf "A 1 %s %s" (hex_of_n (mhash x)) (hex_of_n (mhash x)) | _ -> "BADCASE")
+        (match x with VPtr (_, _) -> Printf.sprintf "A 1 %s %s" (hex_of_n (mhash x)) (hex_of_n (mhash x)) | _ -> "BADCASE")
     | [("en" | "rv") as a; kind; mode; elems] -> iter_model (a = "en") kind mode (ints_of_wire elems)
     | ["mi"; ("en" | "rv") as a; kind; mode; elems] -> if mi_valid kind mode then mi_line (a = "en") (ints_of_wire elems) else "BADCASE"
     | ["et"; ("en" | "rv") as a; ty; kind; mode; elems] -> et_model (a = "en") ty kind mode (ints_of_wire elems)
@@ -522,6 +576,7 @@ let oracle (w : string list) (obs : string) : bool =
                   match spec_lookup leaf_eqb (kv_of ins) y with None -> "-" | Some i -> string_of_int (int_of_nat i)) probes))
   | ["h"; ("P" | "Q"); code; sa; sb; sf], _ -> history_oracle code sa sb sf obs
   | ["a"; "SQ"; _], ["A"; e; hx; hy] -> e = "1" && hx = hy
+  | ["al"; _; sx; forms], _ -> (try alias_oracle sx forms obs with Bad -> false)
   | [("en" | "rv") as a; kind; mode; elems], _ -> iter_oracle (a = "en") kind mode (ints_of_wire elems) obs
   | ["mi"; ("en" | "rv") as a; kind; mode; elems], _ -> if mi_valid kind mode then obs = mi_spec (a = "en") (ints_of_wire elems) else obs = "BADCASE"
   | ["et"; ("en" | "rv") as a; ty; kind; mode; elems], _ -> et_oracle (a = "en") ty kind mode (ints_of_wire elems) obs
